@@ -101,6 +101,14 @@ class C04(TraceCheck):
                     {"k": "assign", "r0": 1, "r1": 2, "c0": 0, "c1": 14, "block": [order[1]], "bk": "list", "form": "slice2"},
                     {"k": "assign", "r0": 0, "r1": 2, "c0": c0, "c1": c1, "block": [srow(txt), srow(txt)], "bk": "list", "form": "slice2", "sameobj": 1},
                     {"k": "read", "r0": 0, "r1": 2, "c0": 0, "c1": 14}]}
+        # plain-str block rows that carry SGR sequences, written onto blank rows and onto rows ending before the region
+        raw = {"k": "s", "v": [[[27, 91, 51, 49, 109, 97, 98, 27, 91, 51, 57, 109], [0] * 8]]}
+        for w in (4, 6, 14):
+            for pre in ([], [{"k": "assign", "r0": 0, "r1": 1, "c0": 0, "c1": 1, "block": [srow("x")], "bk": "list", "form": "slice2"}]):
+                for (r0, c0) in ((0, 2), (1, 2), (3, 1), (0, 1)):
+                    yield {"h": 2, "w": w, "fmt": 0, "steps": pre + [
+                        {"k": "assign", "r0": r0, "r1": r0 + 1, "c0": c0, "c1": c0 + 2, "block": [raw], "bk": "list", "form": "slice2"},
+                        {"k": "read", "r0": 0, "r1": r0 + 2, "c0": 0, "c1": w}]}
         # regions far below the last row (row numbers beyond 2^15 and 2^16): the array grows to them
         for (r0, c0) in ((40000, 1), (70000, 0)):
             yield {"h": 2, "w": 3, "fmt": 0, "steps": [
@@ -192,6 +200,11 @@ class C04(TraceCheck):
             rec["exc"] = ""
             if st["k"] == "assign":
                 block = [enc.build_value(b) for b in st["block"]]
+                if any(isinstance(b, str) and ("\x1b" in b or "\x9b" in b) for b in block):
+                    # a plain-str block row that carries SGR sequences is parsed when it is written: the verdict is
+                    # computed for the equivalent assignment of the parsed rows
+                    from curtsies.formatstring import FmtStr
+                    rec["block"] = [enc.enc_value(FmtStr.from_str(b)) if isinstance(b, str) else enc.enc_value(b) for b in block]
                 if st.get("sameobj"):
                     # [row] * n: equal block rows are one and the same object
                     for j in range(1, len(block)):
